@@ -2,7 +2,7 @@
 # usage: revcheck.sh <fix-commit> <property> [extra check args]
 # Runs a check against a scratch worktree of /repo in which one fix commit is reverted.
 c=$1; p=$2; shift 2
-d=$(mktemp -d /tmp/rv-XXXX)
+d=$(mktemp -d /tmp/rv-XXXX) && [ -n "$d" ] || { echo "no scratch directory (disk full?)"; exit 2; }
 git -C /repo worktree add -q --detach $d HEAD || exit 2
 ( cd $d && git revert --no-commit $c >/dev/null 2>&1 ) || { echo "revert failed"; git -C /repo worktree remove --force $d; exit 2; }
 VERIF_REPO=$d /verif/check $p quick "$@" 2>&1 | grep -E "VIOLATION|signature|KNOWN|INFRA|violations=" | head -${REVLINES:-12}
